@@ -47,9 +47,9 @@ class Build(Harness):
     prop = "C10"; opname = "vec_build"
     goals = ["vector.py:Vector.__new__", "vector.py:Vector._std_to_np", "vector.py:Vector._std_to_np_na_value", "util.py:unique_types",
              "vector.py:Vector.is_na", "vector.py:Vector.tolist", "vector.py:Vector.equal", "vector.py:Vector.na_value", "vector.py:Vector.na_dtype"]
-    def __init__(self, fam, maxn, dtype=None):
-        self.fam = fam; self.maxn = maxn; self.dtype = dtype
-        self.name = f"C10.build.{fam}{'.as_' + dtype if dtype else ''}.n{maxn}"
+    def __init__(self, fam, maxn, dtype=None, source=None):
+        self.fam = fam; self.maxn = maxn; self.dtype = dtype; self.source = source
+        self.name = f"C10.build.{fam}{'.as_' + dtype if dtype else ''}{'.from_' + source if source else ''}.n{maxn}"
         self.bounds = {"elements": f"0..{maxn}", "element family": fam, "explicit dtype": dtype,
                        "ints": "|x| <= 2**53 (integers widen to float next to a missing value)"}
         self.symbolic = ["values of bool/int/float/str elements (a symbolic float may itself be NaN, a symbolic str may be '')"]
@@ -66,6 +66,7 @@ class Build(Harness):
         self._ref = ref
         inp = {"seq": seq}
         if self.dtype: inp["dtype"] = self.dtype
+        if self.source: inp["source"] = self.source
         k = FAMILY_KIND[self.fam]
         if self.fam in ("float", "npfloat", "str") and n >= 1 and not isinstance(seq[0], float) and seq[0] is not None:
             c = sym_cell(k, "fill"); ctx.assume(z3.Not(isna(c, k)))
@@ -228,6 +229,8 @@ def harnesses(tier):
         hs.append(Build(f, 2 if q else 3))
     for f, d in (("int", "float"), ("float", "float"), ("str", "str"), ("int", "int"), ("bool", "object"), ("int", "object")):
         hs.append(Build(f, 2, d))
+    for f, d in (("str", "str"), ("float", "float"), ("int", "float")):
+        hs.append(Build(f, 2, d, source="objarray"))
     for ks in [["f", "f", "f"], ["T", "T", "T"], ["i", "i", "i"], ["i", "f", "i"]] + ([] if q else [["D", "D", "D"], ["b", "b", "b"], ["f", "i", "f"], ["td", "td", "td"]]):
         hs.append(Equal(ks, 2))
     return hs
